@@ -37,6 +37,33 @@ WithTimeFrom(v, ov) ==
 (* K = nanoseconds of one cycle at 1 unit of the frequency (GHz 1, MHz 1e3, kHz 1e6, Hz 1e9).    *)
 FreqK(f) == CASE f = 0 -> N(1) [] f = 1 -> N(1000) [] f = 2 -> N(1000000) [] OTHER -> U[4]
 
+(* MonthName: from a u8 (1..12, anything else falls back to January), its long and short English names *)
+MonthOfU8(b) == IF b \in 1..12 THEN b ELSE 1
+
+(* Display of a TimeSeries: "TimeSeries [first : last : step]" with the default text of the two epochs and of *)
+(* the step; last = start + span for an inclusive series, start + span - step for an exclusive one             *)
+WordTimeSeries == <<84, 105, 109, 101, 83, 101, 114, 105, 101, 115, 32, 91>>          \* "TimeSeries ["
+SeriesText(sr) ==
+  LET last == IF sr.incl THEN DAdd(sr.start.v, sr.span) ELSE DSub(DAdd(sr.start.v, sr.span), sr.step) IN
+    WordTimeSeries \o Display(sr.start.ts, sr.start.v) \o <<32, 58, 32>> \o Display(sr.start.ts, last)
+      \o <<32, 58, 32>> \o Show(sr.step) \o <<93>>
+
+(* The leap second providers as iterators: next() and next_back() share one cursor (as implemented: the k-th *)
+(* call overall, counting both kinds, looks at position k from its own end; next_back() refuses once the      *)
+(* cursor has reached the length).  calls[i] = 0 for next(), 1 for next_back(); the result is the 1-based     *)
+(* index of the entry yielded, 0 for None.  next() keeps advancing the cursor after the end, and a next_back()  *)
+(* that finds the cursor beyond the length computes `len - cursor` on unsigned integers: with overflow checks   *)
+(* it panics (logged as -2, the sequence ends there) - a defect of the iterators outside the listed properties, *)
+(* recorded in DESIGN.md section 13.4; the specification describes it as it is.                                 *)
+RECURSIVE LeapIterFrom(_, _, _, _)
+LeapIterFrom(calls, i, pos, len) ==
+  IF i > Len(calls) THEN <<>>
+  ELSE IF calls[i] = 0 THEN <<IF pos < len THEN pos + 1 ELSE 0>> \o LeapIterFrom(calls, i + 1, pos + 1, len)
+  ELSE IF pos = len THEN <<0>> \o LeapIterFrom(calls, i + 1, pos, len)
+  ELSE IF pos > len THEN <<-2>>
+  ELSE <<len - pos>> \o LeapIterFrom(calls, i + 1, pos + 1, len)
+LeapIter(calls, len) == LeapIterFrom(calls, 1, 0, len)
+
 (* TimeSeries::next_back as implemented: shares the cursor k with next(); the m-th call overall  *)
 (* yields start + span - k*step (so the end itself is never yielded), until k*step exceeds the   *)
 (* span (exclusive) or span + step (inclusive).                                                  *)
